@@ -151,11 +151,25 @@ Definition neighborhood_size (g : hg) (nodes : list nat) : Z :=
 Definition contract_pair_cost (g : hg) (i j : nat) : Z :=
   edges_size g (unique (get_node g i ++ get_node g j)).
 
+(* iteration order of a frozenset of small non-negative ints in CPython 3.12 (hash(i) = i):
+   up to 4 elements live in an 8-slot table and are visited by slot = i mod 8; 5..18
+   elements live in a 32-slot table.  When two elements collide (or an id is too big) the
+   order depends on the insertion history: the second component says "order unknown".
+   `key` is the canonical (sorted, duplicate-free) form of the set. *)
+Definition mod8_le (a b : nat) : bool := Nat.leb (a mod 8) (b mod 8).
+Definition nodup_b (l : list nat) : bool := Nat.eqb (length (unique l)) (length l).
+Definition pyset_order (key : list nat) : list nat * bool :=
+  if Nat.leb (length key) 4
+  then (sort_by mod8_le key, negb (nodup_b (map (fun a => a mod 8) key)))
+  else (key, existsb (fun a => Nat.leb 32 a) key || Nat.leb 19 (length key)).
+
 (* the QR-cost loop over the nodes of one group; NB Python re-binds `da` inside the
    loop (`da, db = sorted((da, db))`), which the model follows.  The second component
-   says whether the result depends on the iteration order of the frozenset (it does
-   only if some node has db < da, because then `da` changes for the later nodes). *)
-Definition group_cost (g : hg) (nodes : list nat) (es : list ix) (da0 : Z) : Z * bool :=
+   says whether the result may differ from Python's because it depends on an iteration
+   order the model does not know (only if some node has db < da, since then `da`
+   changes for the later nodes, and the frozenset order is not determined). *)
+Definition group_cost (g : hg) (key : list nat) (es : list ix) (da0 : Z) : Z * bool :=
+  let '(nodes, unknown) := pyset_order key in
   let step := fun (st : Z * Z * bool) (node : nat) =>
       let '(c, da, sens) := st in
       let outer := filter (fun e => negb (memb e es)) (get_node g node) in
@@ -164,9 +178,9 @@ Definition group_cost (g : hg) (nodes : list nat) (es : list ix) (da0 : Z) : Z *
       let hi := Z.max da db in
       ((c + lo * lo * hi)%Z, lo, sens || (db <? da)%Z) in
   let '(c, _, sens) := fold_left step nodes (0%Z, da0, false) in
-  (c, sens && Nat.ltb 1 (length nodes)).
+  (c, sens && Nat.ltb 1 (length nodes) && unknown).
 
-(* neighborhood_compress_cost(chi, nodes): (C, order-sensitive?) *)
+(* neighborhood_compress_cost(chi, nodes): (C, result depends on an unknown set order?) *)
 Definition neighborhood_compress_cost (g : hg) (chi : Z) (nodes : list nat) : Z * bool :=
   let region_edges := unique (flat_map (get_node g) nodes) in
   let inc := incidences g region_edges in
